@@ -11,12 +11,10 @@ Lemma lookup_put : forall s h p h',
 Proof.
   induction s as [|[k q] r IH]; intros h p h'; cbn [put lookup].
   - reflexivity.
-  - destruct (h <? k) eqn:Hlt; cbn [lookup].
-    + reflexivity.
-    + destruct (h =? k) eqn:Heq; cbn [lookup].
-      * apply N.eqb_eq in Heq; subst k. destruct (h =? h'); reflexivity.
-      * rewrite IH. destruct (k =? h') eqn:Hk; [|reflexivity].
-        apply N.eqb_eq in Hk; subst k. rewrite Heq. reflexivity.
+  - destruct (k =? h) eqn:Heq; cbn [lookup].
+    + apply N.eqb_eq in Heq; subst k. destruct (h =? h'); reflexivity.
+    + rewrite IH. destruct (k =? h') eqn:Hk; [|reflexivity].
+      apply N.eqb_eq in Hk; subst k. rewrite N.eqb_sym, Heq. reflexivity.
 Qed.
 
 Lemma lookup_put_same : forall s h p, lookup (put s h p) h = Some p.
@@ -459,6 +457,19 @@ Qed.
 
 (* every payment listed by FetchInFlightPayments is stored, non-terminal and
    reported with its decided status *)
+Lemma in_insert_by_key : forall x y l, In x (insert_by_key y l) <-> x = y \/ In x l.
+Proof.
+  induction l as [|z r IH]; cbn [insert_by_key].
+  - cbn. intuition auto.
+  - destruct (fst y <=? fst z); cbn [In]; [intuition auto|]. rewrite IH. intuition auto.
+Qed.
+
+Lemma in_sort_by_key : forall x l, In x (sort_by_key l) <-> In x l.
+Proof.
+  induction l as [|z r IH]; cbn [sort_by_key fold_right]; [reflexivity|].
+  fold (sort_by_key r). rewrite in_insert_by_key, IH. cbn. intuition auto.
+Qed.
+
 Lemma inflight_truthful : forall b s s' r h pr,
   step b s OFetchInFlight = (s', r) -> In (h, pr) (rlist r) ->
   s' = s /\ exists p, In (h, p) s /\ pr = mk_proj p /\
@@ -466,7 +477,7 @@ Lemma inflight_truthful : forall b s s' r h pr,
 Proof.
   intros b s s' r h pr H Hin. cbn [step] in H. unfold do_inflight in H.
   destruct (forallb _ _); inversion H; subst; cbn in Hin; [|contradiction].
-  split; [reflexivity|].
+  split; [reflexivity|]. apply (proj1 (in_sort_by_key _ _)) in Hin.
   apply in_map_iff in Hin as ([k p] & A & B). cbn in A. inversion A; subst.
   apply filter_In in B as [B C]. exists p. split; [assumption|]. split; [reflexivity|].
   cbn in C. assert (C' : non_terminal KV p = true)
@@ -697,3 +708,265 @@ Proof.
   { intros v C. apply (Ni v). right; assumption. }
   exists p2. repeat split; auto. congruence.
 Qed.
+
+(* --------------------------------------- KV / SQL agreement (refinement) *)
+
+Definition wf (s : store) : Prop := NoDup (map fst s).
+
+Lemma in_keys_put : forall s h p x,
+  In x (map fst (put s h p)) -> x = h \/ In x (map fst s).
+Proof.
+  induction s as [|[k q] r IH]; intros h p x H; cbn [put map fst In] in *.
+  - destruct H as [H|[]]; auto.
+  - destruct (k =? h) eqn:E; cbn [map fst In] in H.
+    + apply N.eqb_eq in E; subst. destruct H; auto.
+    + destruct H as [H|H]; auto. apply IH in H. destruct H; auto.
+Qed.
+
+Lemma wf_put : forall s h p, wf s -> wf (put s h p).
+Proof.
+  unfold wf. induction s as [|[k q] r IH]; intros h p H; cbn [put map fst].
+  - constructor; [intros []|constructor].
+  - inversion H as [|? ? Hn Hr]; subst. destruct (k =? h) eqn:E; cbn [map fst].
+    + apply N.eqb_eq in E; subst. constructor; assumption.
+    + constructor; [|apply IH; assumption].
+      intros C. apply in_keys_put in C as [C|C]; [|contradiction].
+      subst. rewrite N.eqb_refl in E. discriminate.
+Qed.
+
+Lemma in_keys_filter : forall (f : N * payment -> bool) r x,
+  In x (map fst (filter f r)) -> In x (map fst r).
+Proof.
+  induction r as [|kq r IH]; intros x C; cbn [filter map In] in *; [contradiction|].
+  destruct (f kq); cbn [map In] in C; intuition auto.
+Qed.
+
+Lemma wf_remove : forall s h, wf s -> wf (remove s h).
+Proof.
+  unfold wf, remove. induction s as [|[k q] r IH]; intros h H; cbn [filter map fst].
+  - constructor.
+  - inversion H as [|? ? Hn Hr]; subst.
+    cbn [fst]. destruct (negb (k =? h)); cbn [map fst]; auto.
+    constructor; auto. intros C. apply Hn. eapply in_keys_filter; eauto.
+Qed.
+
+Lemma wf_in_lookup : forall s k p, wf s -> In (k, p) s -> lookup s k = Some p.
+Proof.
+  unfold wf. induction s as [|[k' q] r IH]; intros k p H Hin; [contradiction|].
+  inversion H as [|? ? Hn Hr]; subst. cbn [lookup]. destruct Hin as [Hin|Hin].
+  - inversion Hin; subst. rewrite N.eqb_refl. reflexivity.
+  - destruct (k' =? k) eqn:E; [|auto].
+    apply N.eqb_eq in E; subst. exfalso. apply Hn.
+    apply in_map_iff. exists (k, p). auto.
+Qed.
+
+Lemma commit_fetch_wf : forall s s' h, wf s -> wf s' -> wf (fst (commit_fetch s s' h)).
+Proof. intros. destruct (commit_fetch_cases s s' h) as [-> | ->]; assumption. Qed.
+
+Lemma wf_step_KV : forall s o, wf s -> wf (fst (step KV s o)).
+Proof.
+  intros s o H. destruct o; cbn [step].
+  - unfold do_init. destruct (lookup s h) as [p|]; cbn [fst]; [|apply wf_put; auto].
+    destruct (negb (sent_ok p)); [assumption|].
+    destruct (initializable (status_of p)); cbn [fst]; auto using wf_put.
+  - unfold do_register. destruct (lookup s h) as [p|]; [|assumption].
+    destruct (negb (sent_ok p)); [assumption|].
+    destruct (registrable p); try assumption.
+    destruct (verify_attempt p (with_out a Inflight)); try assumption.
+    apply commit_fetch_wf; auto using wf_put.
+  - unfold do_resolve. destruct (lookup s h) as [p|]; [|assumption].
+    destruct (negb (sent_ok p)); [assumption|].
+    destruct (updatable (status_of p)); try assumption.
+    destruct (find_att (atts p) id) as [x|]; [|assumption].
+    destruct (out x); try assumption. apply commit_fetch_wf; auto using wf_put.
+  - unfold do_resolve. destruct (lookup s h) as [p|]; [|assumption].
+    destruct (negb (sent_ok p)); [assumption|].
+    destruct (updatable (status_of p)); try assumption.
+    destruct (find_att (atts p) id) as [x|]; [|assumption].
+    destruct (out x); try assumption. apply commit_fetch_wf; auto using wf_put.
+  - unfold do_fail. destruct (lookup s h) as [p|]; [|assumption].
+    destruct (negb (sent_ok p)); [assumption|]. apply commit_fetch_wf; auto using wf_put.
+  - unfold do_delete. destruct (lookup s h) as [p|]; [|assumption].
+    destruct (negb (sent_ok p)); [assumption|].
+    destruct (removable (status_of p)); cbn [fst]; auto using wf_put.
+  - unfold do_delete. destruct (lookup s h) as [p|]; [|assumption].
+    destruct (negb (sent_ok p)); [assumption|].
+    destruct (removable (status_of p)); try assumption.
+    destruct failed_only; cbn [fst]; auto using wf_put, wf_remove.
+  - unfold do_fetch. destruct (lookup s h) as [p|]; [|assumption]. destruct (sent_ok p); assumption.
+  - unfold do_inflight. destruct (forallb _ _); assumption.
+Qed.
+
+(* the discipline the router follows: attempt ids are never reused, and an
+   attempt is settled / failed through the hash of the payment it belongs to *)
+Definition others_lack (s : store) (h id : N) : bool :=
+  forallb (fun kp => (fst kp =? h) || negb (is_some (find_att (atts (snd kp)) id))) s.
+
+Definition disciplined (s : store) (o : op) : bool :=
+  match o with
+  | ORegister _ a => negb (is_some (find_global s (aid a)))
+  | OSettle h id | OFailAttempt h id => others_lack s h id
+  | _ => true
+  end.
+
+(* (KV error, SQL error) pairs that may differ: same decision, other sentinel *)
+Definition err_class_pair (k q : err) : bool :=
+  match k, q with
+  | ENotInitiated, EOther | EAttFailed, EOther | EAttSettled, EOther
+  | EOther, ENotInitiated => true
+  | _, _ => false
+  end.
+
+Definition resp_rel (k q : resp) : Prop :=
+  rpay k = rpay q /\ rlist k = rlist q /\
+  (rerr k = rerr q \/ err_class_pair (rerr k) (rerr q) = true).
+
+Lemma resp_rel_refl : forall r, resp_rel r r.
+Proof. intros; repeat split; auto. Qed.
+
+Lemma resolve_atts_lack : forall l id o, find_att l id = None -> resolve_atts l id o = l.
+Proof.
+  induction l as [|x r IH]; intros id o H; cbn [resolve_atts map]; [reflexivity|].
+  cbn [find_att] in H. destruct (aid x =? id); [discriminate|]. cbn [andb].
+  f_equal. apply IH; assumption.
+Qed.
+
+Lemma resolve_pay_lack : forall q id o, find_att (atts q) id = None -> resolve_pay q id o = q.
+Proof.
+  intros [v l r] id o H. unfold resolve_pay; cbn [value atts reason] in *.
+  rewrite resolve_atts_lack; auto.
+Qed.
+
+Lemma all_lack : forall r id o,
+  (forall k q, In (k, q) r -> find_att (atts q) id = None) ->
+  find_global r id = None /\ resolve_all r id o = r.
+Proof.
+  induction r as [|[k q] r IH]; intros id o H; cbn [find_global resolve_all map fst snd];
+    [auto|].
+  assert (Hq : find_att (atts q) id = None) by (apply (H k q); left; reflexivity).
+  rewrite Hq, resolve_pay_lack by assumption.
+  destruct (IH id o) as [A B]; [intros; eapply H; right; eauto|].
+  fold (resolve_all r id o). rewrite A, B. auto.
+Qed.
+
+Lemma owner_local : forall s h id o p,
+  wf s -> lookup s h = Some p -> others_lack s h id = true ->
+  find_global s id = find_att (atts p) id /\
+  resolve_all s id o = put s h (resolve_pay p id o).
+Proof.
+  unfold wf. induction s as [|[k q] r IH]; intros h id o p W L D; [discriminate|].
+  inversion W as [|? ? Hn Hr]; subst.
+  cbn [others_lack forallb fst snd] in D. apply andb_true_iff in D as [D1 D2].
+  cbn [lookup] in L. cbn [find_global resolve_all map fst snd put].
+  fold (resolve_all r id o).
+  destruct (k =? h) eqn:E.
+  - apply N.eqb_eq in E; subst k. inversion L; subst q.
+    destruct (all_lack r id o) as [A B].
+    { intros k q Hin. assert (Hk : k <> h).
+      { intros ->. apply Hn. apply in_map_iff. exists (h, q). auto. }
+      unfold others_lack in D2. rewrite forallb_forall in D2. specialize (D2 _ Hin).
+      cbn in D2. apply N.eqb_neq in Hk. rewrite Hk in D2. cbn in D2.
+      destruct (find_att (atts q) id); [discriminate|reflexivity]. }
+    rewrite A, B. split; [destruct (find_att (atts p) id); reflexivity | reflexivity].
+  - cbn [orb] in D1. destruct (find_att (atts q) id) eqn:F; [discriminate|].
+    rewrite resolve_pay_lack by assumption.
+    destruct (IH h id o p Hr L D2) as [A B]. rewrite A, B. auto.
+Qed.
+
+Lemma commit_fetch_rel : forall s s' h,
+  resp_rel (snd (commit_fetch s s' h)) (snd (commit_fetch s s' h)).
+Proof. intros; apply resp_rel_refl. Qed.
+
+Definition all_inv (s : store) : Prop := forall k p, In (k, p) s -> pay_inv p.
+
+Lemma all_inv_of : forall s, wf s -> store_inv s -> all_inv s.
+Proof. intros s W I k p Hin. apply (I k). apply wf_in_lookup; assumption. Qed.
+
+Lemma rel_err_pair : forall k q, err_class_pair k q = true -> resp_rel (r_err k) (r_err q).
+Proof. intros; repeat split; auto. Qed.
+
+Lemma step_agree : forall s o,
+  wf s -> store_inv s -> disciplined s o = true ->
+  fst (step KV s o) = fst (step SQL s o) /\
+  resp_rel (snd (step KV s o)) (snd (step SQL s o)).
+Proof.
+  intros s o W I D.
+  assert (SOK : forall h p, lookup s h = Some p -> sent_ok p = true)
+    by (intros; eapply inv_sent_ok, I; eauto).
+  destruct o; cbn [step].
+  - unfold do_init. destruct (lookup s h) as [p|] eqn:E; [|split; [reflexivity|apply resp_rel_refl]].
+    rewrite (SOK _ _ E). cbn [negb]. split; [reflexivity|apply resp_rel_refl].
+  - unfold do_register. cbn in D.
+    destruct (lookup s h) as [p|] eqn:E;
+      [|split; [reflexivity|apply rel_err_pair; reflexivity]].
+    destruct (negb (sent_ok p)); [split; [reflexivity|apply resp_rel_refl]|].
+    destruct (registrable p); try (split; [reflexivity|apply resp_rel_refl]).
+    destruct (verify_attempt p (with_out a Inflight));
+      try (split; [reflexivity|apply resp_rel_refl]).
+    cbn [aid with_out]. destruct (find_global s (aid a)); [discriminate|]. cbn [is_some].
+    split; [reflexivity|apply resp_rel_refl].
+  - unfold do_resolve. cbn in D.
+    destruct (lookup s h) as [p|] eqn:E; [|split; [reflexivity|apply resp_rel_refl]].
+    rewrite (SOK _ _ E). cbn [negb].
+    destruct (updatable (status_of p)); try (split; [reflexivity|apply resp_rel_refl]).
+    destruct (owner_local s h id Settled p W E D) as [A B]. rewrite A, B.
+    destruct (find_att (atts p) id) as [x|]; [|split; [reflexivity|apply resp_rel_refl]].
+    destruct (out x); split; try reflexivity; try apply resp_rel_refl;
+      apply rel_err_pair; reflexivity.
+  - unfold do_resolve. cbn in D.
+    destruct (lookup s h) as [p|] eqn:E; [|split; [reflexivity|apply resp_rel_refl]].
+    rewrite (SOK _ _ E). cbn [negb].
+    destruct (updatable (status_of p)); try (split; [reflexivity|apply resp_rel_refl]).
+    destruct (owner_local s h id Failed p W E D) as [A B]. rewrite A, B.
+    destruct (find_att (atts p) id) as [x|]; [|split; [reflexivity|apply resp_rel_refl]].
+    destruct (out x); split; try reflexivity; try apply resp_rel_refl;
+      apply rel_err_pair; reflexivity.
+  - split; [reflexivity|apply resp_rel_refl].
+  - unfold do_delete. destruct (lookup s h) as [p|] eqn:E;
+      [|split; [reflexivity|apply rel_err_pair; reflexivity]].
+    rewrite (SOK _ _ E). cbn [negb]. split; [reflexivity|apply resp_rel_refl].
+  - unfold do_delete. destruct (lookup s h) as [p|] eqn:E;
+      [|split; [reflexivity|apply rel_err_pair; reflexivity]].
+    rewrite (SOK _ _ E). cbn [negb]. split; [reflexivity|apply resp_rel_refl].
+  - split; [reflexivity|apply resp_rel_refl].
+  - unfold do_inflight.
+    assert (F : forall f : N * payment -> bool,
+               forallb (fun kp => sent_ok (snd kp)) (filter f s) = true).
+    { intros f. apply forallb_forall. intros [k p] Hin. apply filter_In in Hin as [Hin _].
+      cbn. apply inv_sent_ok. eapply all_inv_of; eauto. }
+    assert (G : forallb (fun kp => sent_ok (snd kp)) s = true).
+    { apply forallb_forall. intros [k p] Hin. cbn. apply inv_sent_ok.
+      eapply all_inv_of; eauto. }
+    rewrite F, G. split; [reflexivity|].
+    assert (Q : filter (fun kp : N * payment => non_terminal KV (snd kp)) s =
+                filter (fun kp : N * payment => non_terminal SQL (snd kp)) s).
+    { apply filter_ext. intros; symmetry; apply non_terminal_agree. }
+    rewrite Q. apply resp_rel_refl.
+Qed.
+
+(* disciplined along the whole (KV) run *)
+Fixpoint disciplined_run (s : store) (ops : list op) : bool :=
+  match ops with
+  | [] => true
+  | o :: r => disciplined s o && disciplined_run (fst (step KV s o)) r
+  end.
+
+Lemma run_agree : forall ops s,
+  wf s -> store_inv s -> forallb op_in_domain ops = true ->
+  disciplined_run s ops = true ->
+  run KV s ops = run SQL s ops /\
+  Forall2 resp_rel (answers KV s ops) (answers SQL s ops).
+Proof.
+  induction ops as [|o r IH]; intros s W I Dm Dc; cbn [run answers]; [auto|].
+  cbn in Dm, Dc. apply andb_true_iff in Dm as [Dm1 Dm2]. apply andb_true_iff in Dc as [Dc1 Dc2].
+  destruct (step_agree s o W I Dc1) as [A B].
+  destruct (step KV s o) as [s1 a1] eqn:E1. destruct (step SQL s o) as [s2 a2] eqn:E2.
+  cbn [fst snd] in *. subst s2.
+  assert (W1 : wf s1) by (pose proof (wf_step_KV s o W) as X; rewrite E1 in X; exact X).
+  assert (I1 : store_inv s1)
+    by (pose proof (step_inv KV s o I Dm1) as X; rewrite E1 in X; exact X).
+  destruct (IH s1 W1 I1 Dm2 Dc2) as [R1 R2]. split; [assumption|]. constructor; assumption.
+Qed.
+
+Lemma wf_empty : wf [].
+Proof. constructor. Qed.
